@@ -13,7 +13,7 @@ from mzverif.core import Sub, Violation, call, require
 
 ID = "C14"
 LEVEL = "exploration"
-TECHNIQUE = "exhaustive: all 4096 positions against a frozen golden list and an independently reconstructed layout, corner-first property for every n <= 50 and (order itself + legacy prefix / row-major properties) for sizes up to 256 (thorough 300), legacy vocabularies x 3 modes x sizes 1..50, all prefix pairs; Hypothesis: codec round trips (re-asked after the caller edited earlier results), construction-order and in-place resize histories, unknown tokens / ids (above and below the vocabulary), every single-edit near miss of every vocabulary token"
+TECHNIQUE = "exhaustive: all 4096 positions against a frozen golden list and an independently reconstructed layout, corner-first property for every n <= 50 and (order itself + legacy prefix / row-major properties) for sizes up to 256 (thorough 300), legacy vocabularies x 3 modes x sizes 1..50, all prefix pairs; Hypothesis: codec round trips (re-asked after the caller edited earlier results), construction-order and in-place resize histories, unknown tokens / ids (above and below the vocabulary), every single-edit near miss of every vocabulary token; unknown tokens / ids through the list and the joined form of both codecs"
 RULE = (
     "position case = vocabulary index i (all 4096); legacy case = (mode, n) for n in 1..50, also sequences of such constructions in one process in arbitrary order; prefix case = (n, m), n<m<=50; sequence "
     "case = (vocabulary, list of ids) run through decode->encode and encode->decode as list and as joined string; unknown case = a "
